@@ -124,6 +124,9 @@ pub enum Event {
     RestartCluster,
     ResetStreams { a: u16, b: u16 },
     ApplyLag { node: u16, ms: u16 },
+    /// slow disk on one node: every persist_entries call of its log store takes `ms` of virtual time, so
+    /// acknowledged entries stay memory-only for a while (0 = back to immediate)
+    DiskLag { node: u16, ms: u16 },
     Net(NetP),
     /// start learner number `idx` (node id voters+1+idx); it discovers the leader and asks to join
     JoinLearner { idx: u8 },
@@ -716,6 +719,16 @@ impl Interp {
                     self.w.fault(format!("apply lag node {id} = {ms}ms"));
                     if *ms > 0 {
                         self.res.labels.insert("apply_lag".into());
+                    }
+                }
+            }
+            Event::DiskLag { node, ms } => {
+                let id = self.node_by_index(*node);
+                if let Some(n) = self.w.nodes.get(&id) {
+                    n.persistent.disk.set_lag_ms(*ms as u64);
+                    self.w.fault(format!("disk lag node {id} = {ms}ms"));
+                    if *ms > 0 {
+                        self.res.labels.insert("disk_lag".into());
                     }
                 }
             }
